@@ -9,7 +9,7 @@ from hypothesis import strategies as st
 
 from .. import gen, model, schema
 from ..cliutil import run_cli
-from ..core import as_violation, Ctx, Violation, call, check, per_shard, run_given, run_machine
+from ..core import as_violation, Ctx, Violation, call, check, per_shard, run_given, run_machine, given_part, machine_part, run_parts
 
 PID = "C02"
 LEVEL = "exploration"
@@ -676,6 +676,7 @@ def replay(ctx: Ctx, case):
 
 def run(ctx: Ctx):
     q = ctx.tier == "quick"
+    parts = []
     if ctx.shard in (0, 1) or not q:
         layout = "boundary" if ctx.shard % 2 == 0 else "inside"
         case = {"part": "big", "layout": layout, "derive": (not q) and ctx.shard < 4}
@@ -685,12 +686,9 @@ def run(ctx: Ctx):
             except Violation as e:
                 ctx.add_violation(case, str(e))
                 return
-    if not run_given(ctx, "rle", rle_cases(), check_rle, per_shard(ctx, 4000 if q else 120000), batch=500):
-        return
-    if not run_given(ctx, "index", index_cases(), check_index, per_shard(ctx, 1200 if q else 40000), batch=100):
-        return
-    if not run_given(ctx, "empty", empty_cases(), check_empty, per_shard(ctx, 240 if q else 4000), batch=30):
-        return
-    if not run_given(ctx, "pool", pool_cases(), check_pool, per_shard(ctx, 96 if q else 1600), batch=6):
-        return
-    run_machine(ctx, "history", lambda: make_machine(ctx), per_shard(ctx, 120 if q else 2400), steps=8, batch=5)
+    parts.append(given_part(ctx, "rle", rle_cases(), check_rle, per_shard(ctx, 4000 if q else 120000), batch=500))
+    parts.append(given_part(ctx, "index", index_cases(), check_index, per_shard(ctx, 1200 if q else 40000), batch=100))
+    parts.append(given_part(ctx, "empty", empty_cases(), check_empty, per_shard(ctx, 240 if q else 4000), batch=30))
+    parts.append(given_part(ctx, "pool", pool_cases(), check_pool, per_shard(ctx, 96 if q else 1600), batch=6))
+    parts.append(machine_part(ctx, "history", lambda: make_machine(ctx), per_shard(ctx, 120 if q else 2400), steps=8, batch=5))
+    run_parts(ctx, parts)
